@@ -494,6 +494,8 @@ class SchemaValidator:
                 )
                 continue
 
+            self.check_valid_name(field.name)
+
             if not is_input_type(field.type):
                 self.add_error(
                     'Expected input type for field "%s" on "%s" but got "%s"'
